@@ -156,7 +156,7 @@ func NewAux(t Tag, value interface{}) (Aux, error) {
 func ParseAux(text []byte) (Aux, error) {
 	// TG:T:v...
 	// 012345...
-	if len(text) < 6 || text[2] != ':' || text[4] != ':' {
+	if len(text) < 5 || text[2] != ':' || text[4] != ':' {
 		return nil, fmt.Errorf("sam: invalid aux tag field: %q", text)
 	}
 	txt := text[5:]
@@ -193,6 +193,9 @@ func ParseAux(text []byte) (Aux, error) {
 		}
 		value = Hex(b)
 	case 'B':
+		if len(txt) == 0 {
+			return nil, fmt.Errorf("sam: invalid aux tag field: %q", text)
+		}
 		// A zero-length array is written as the element type alone ("XY:B:c").
 		var nf [][]byte
 		if len(txt) > 1 {
